@@ -29,12 +29,17 @@ type c18Plan struct {
 	Scripts    []string `json:"scripts"` // op kind per goroutine
 	Millis     int      `json:"millis"`
 	Deep       bool     `json:"deep"` // >1000 vertices first, so that truncation can run
+	RealLoop   bool     `json:"real_loop"` // node configured with Truncate=2000 and filled to just below weight 3001: the node's OWN truncation loop fires while the workload runs
 }
 
 var c18Ops = []string{"propose", "gossip-feed", "orphans", "balance", "history", "read-tx", "read-vertex", "stream", "retry", "truncate", "gossip-handler", "cache", "snapshot-read"}
 
 func c18Run(p c18Plan, seed string) (opsDone map[string]int64, inconclusive string) {
-	s, err := newSvc(seed, 4, 4, true, 60)
+	var trunc uint64
+	if p.RealLoop {
+		trunc = 2000
+	}
+	s, err := newSvcT(seed, 4, 4, true, 60, trunc)
 	if err != nil {
 		if s != nil {
 			s.close()
@@ -46,9 +51,31 @@ func c18Run(p c18Plan, seed string) (opsDone map[string]int64, inconclusive stri
 	book := s.book
 	// material produced up front by the harness (single threaded): vertices sealed by a rogue wallet forming a chain
 	// on the current tip, and orphan pairs
-	if p.Deep {
+	if p.Deep && !p.RealLoop {
 		if err := w.Filler(0, 1010, false); err != nil {
 			return nil, "filler: " + err.Error()
+		}
+	}
+	if p.RealLoop {
+		// the loop truncates once an accepted vertex weighs more than Truncate+1000: stop a few vertices short so that
+		// the proposals of the concurrent phase cross the mark
+		for i := 0; i < 40; i++ {
+			if err := w.Filler(0, 100, false); err != nil {
+				return nil, "filler: " + err.Error()
+			}
+			sn, err := w.Snapshot(w.Nodes[0])
+			if err != nil {
+				return nil, err.Error()
+			}
+			if sn.Raw.Weight >= 2985 {
+				break
+			}
+			if sn.Raw.Weight > 2880 {
+				if err := w.Filler(0, int(2990-sn.Raw.Weight), false); err != nil {
+					return nil, "filler: " + err.Error()
+				}
+				break
+			}
 		}
 	}
 	snap, err := w.Snapshot(w.Nodes[0])
@@ -157,6 +184,11 @@ func c18Run(p c18Plan, seed string) (opsDone map[string]int64, inconclusive stri
 	}
 	wg.Wait()
 	opsDone = map[string]int64{}
+	if p.RealLoop {
+		if sn, err := w.Snapshot(w.Nodes[0]); err == nil && len(sn.Stored) > 0 {
+			opsDone["own-truncation-loop-fired"] = 1
+		}
+	}
 	for k, v := range done {
 		if n := v.Load(); n > 0 {
 			opsDone[k] = n
@@ -209,6 +241,15 @@ func parseRaceReports(dir string) map[string]string {
 			if len(sites) == 0 {
 				continue // no repository frame in either access: third-party
 			}
+			hook := false
+			for _, fn := range sites {
+				if strings.Contains(fn, ".Verif") {
+					hook = true // an access made by one of the harness's own verif-tagged hooks is not the node's concurrency
+				}
+			}
+			if hook {
+				continue
+			}
 			sort.Strings(sites)
 			sig := "race:" + strings.Join(sites, "|")
 			if _, ok := out[sig]; !ok {
@@ -232,7 +273,7 @@ func TestC18(t *testing.T) {
 	// workloads run outside the library and the failing workload's plan is the replay unit.
 	planGen := rapid.Custom(func(rt *rapid.T) c18Plan {
 		p := c18Plan{Goroutines: rapid.IntRange(6, 24).Draw(rt, "goroutines"), Millis: rapid.SampledFrom([]int{700, 1200, 2300, 3200}).Draw(rt, "millis"),
-			Deep: rapid.IntRange(0, 3).Draw(rt, "deep") == 0}
+			Deep: rapid.IntRange(0, 3).Draw(rt, "deep") == 0, RealLoop: rapid.IntRange(0, 9).Draw(rt, "realLoop") == 0}
 		for i := 0; i < p.Goroutines; i++ {
 			op := rapid.SampledFrom(c18Ops).Draw(rt, "script")
 			if i == 0 {
@@ -249,6 +290,9 @@ func TestC18(t *testing.T) {
 	base := envInt("VERIF_SEED", 1)*1_000_003 + shard()*1009
 	for caseNo := 0; caseNo < cases; caseNo++ {
 		p := planGen.Example(base + caseNo)
+		if caseNo == 1 && shard()%4 == 1 {
+			p.RealLoop = true // at least a few workloads of every run race with the node's own truncation loop
+		}
 		writers := 0
 		for _, op := range p.Scripts {
 			switch op {
